@@ -114,7 +114,7 @@ var props = map[string]propSpec{
 	},
 	"C17": {
 		QuickShards: 8, ThoroughShards: 16,
-		Rule:        "rapid draws arguments for Sqrt and Cbrt: all patterns, perfect squares/cubes of 1..17 / 1..11-digit integers +-1 unit at exponents of every residue, the Decimals on either side of ((c+1/2)*10^q)^k for full-precision c (about 0.1 ulp from a rounding midpoint), arguments constructed so that the root misses a midpoint by 1e-20..1e-9 ulp (square root: Hensel lifting of w(w+1) = c mod 10^34) or by about 1e-12..1e-9 ulp (cube root: closest vector in a 2-dimensional lattice for (h0+2t)^3 mod 8*10^m), with the proximity classes 1e-6/1e-9/1e-12/1e-15 ulp counted, subnormal and top-of-range arguments, short coefficients at exponents -60..60; the result r is decided by the statement's own integer test ((c*1e20 -/+ (5e19+1)) * 10^(q-20))^k <= |d| <= ..., with u the format spacing at r; zeros, infinities, NaN and negative arguments per the statement. Non-trivial = argument that is not a perfect power; distinct = distinct (bits, function).",
+		Rule:        "rapid draws arguments for Sqrt and Cbrt: all patterns, perfect squares/cubes of 1..17 / 1..11-digit integers +-1 unit at exponents of every residue, the Decimals on either side of ((c+1/2)*10^q)^k for full-precision c (about 0.1 ulp from a rounding midpoint), arguments constructed so that the root misses a midpoint by 1e-20..1e-9 ulp (square root: Hensel lifting of w(w+1) = c mod 10^34) or by about 1e-12..1e-9 ulp (cube root: closest vector in a 2-dimensional lattice for (h0+2t)^3 mod 8*10^m; next to the roots 1, 2, 5 x 10^k a closed-form family reaches 1e-17..1e-14 ulp), with the proximity classes 1e-6/1e-9/1e-12/1e-15 ulp counted, subnormal and top-of-range arguments, short coefficients at exponents -60..60; the result r is decided by the statement's own integer test ((c*1e20 -/+ (5e19+1)) * 10^(q-20))^k <= |d| <= ..., with u the format spacing at r; zeros, infinities, NaN and negative arguments per the statement. Non-trivial = argument that is not a perfect power; distinct = distinct (bits, function).",
 		Assumptions: commonAssumptions,
 	},
 	"C16": {
